@@ -719,10 +719,23 @@ COMMON_ASSUME = ['enum construction / constant-dict lookup / utf-8 decoding of a
 
 
 def standard(run, tier, pid):
+    run.pending_failures = []
+    if pid in ('C07', 'C09'):
+        # the window a decoder receives is what the pairing code delivers: re-discharge those clauses here
+        # (C07: the pipeline functions themselves never raise; C09: the window begins with the most recent START)
+        from checks import c04
+        for which in (('start', 'end', 'single') if pid == 'C07' else ('start',)):
+            c04.verify_op(run, tier, Session(), which, prefix_root=pid)
+        if pid == 'C07':
+            c04.verify_feed(run, tier, Session(), prefix_root=pid)
+            c04.verify_pel(run, tier, Session(), prefix_root=pid)
     recs, tabs = run_pool(run, pid)
     run.trusted += COMMON_TRUST
     run.assumptions += COMMON_ASSUME
     absorb(run, recs)
+    if run.pending_failures:
+        from checks import c04
+        c04.finish_failures(run, pid)
     run.extra['decoders_explored'] = len(tabs)
     run.extra['paths_explored'] = sum(r.get('npaths', 0) for r in recs if r['name'].endswith('/total'))
     for r in recs[:3]:
